@@ -16,3 +16,4 @@ CONSTANTS
 INVARIANT Emit
 INVARIANT QueryCorrect
 INVARIANT TreeFresh
+PROPERTY RejectIsAtomic
